@@ -49,3 +49,7 @@ Definition z_diag_exp D N data modes (vals : list Z) :=
 Definition z_diag_spec D N data modes (vals : list Z) :=
   diag_spec Z 0%Z 1%Z Z.add Z.mul D N (ztensor D data) modes (fun a => nth a vals 0%Z).
 Definition z_marginal D N (p : list Z) k := map (marginal Z 0%Z Z.add D N (ztensor D p) k) (seq 0 D).
+
+(* bosonic mixture moments at floats *)
+Definition f_bosonic_quad (c s : float) (mode : nat) (comps : list (float * list float * list (list float))) :=
+  bosonic_quad float f0 PrimFloat.add PrimFloat.mul PrimFloat.sub c s mode comps.
